@@ -20,7 +20,7 @@ LEVEL_TEXT = ('Static decision of the structural necessary conditions of the lis
               'the first trial, once per DoGlobalIteration call with exactly that call\'s new trials, once at stop '
               'with the current result, for every listener, on every returning path) holds on the event traces of the drivers; Process uses '
               'the very list AddListener appends to; the console report wires each label to its quantity; no shipped '
-              'callback can write an object of the solver state.')
+              'callback can write an object of the solver state; AddListener registers the listener object itself.')
 EXPLANATION = ('Signatures and attribute uses are resolved through the points-to relation (which listener classes can '
                'be in the list, which objects reach each callback parameter). The protocol is decided on path '
                'summaries of DoGlobalIteration and Solve. Non-interference is an effect analysis: the union of '
